@@ -275,6 +275,13 @@ func resolvePath(basePath *url.URL, componentPath *url.URL) *url.URL {
 	if is_file(componentPath) {
 		// support absolute paths
 		if filepath.IsAbs(componentPath.Path) {
+			if basePath != nil && !is_file(basePath) {
+				// an absolute path found in a remote document designates a resource of
+				// the same server, never a file of the local file system
+				newPath := *basePath
+				newPath.Path = componentPath.Path
+				return &newPath
+			}
 			return componentPath
 		}
 		return join(basePath, componentPath)
